@@ -94,12 +94,76 @@ def branch(body, what):
     return pexpr(t.body[0].value), "[" + "; ".join(hs) + "]"
 
 
+FLAG_NAMES = {"IGNORECASE": "I", "I": "I", "VERBOSE": "X", "X": "X", "S": "S", "DOTALL": "S", "M": "M", "MULTILINE": "M"}
+
+
+def regex_shape(call):
+    """normal form of a module-level  re.compile(<constant pattern>, <flags>)  : the pattern is parsed with the
+    re module's own parser (so layout and comments of a VERBOSE pattern do not matter), capturing and
+    non-capturing groups are not distinguished, flags are a sorted letter string.  Anything that is not a constant
+    pattern (an f-string assembled from pieces, a variable) is refused."""
+    import re
+    import warnings
+    try:
+        import re._parser as sre_parse
+    except ImportError:  # python < 3.11
+        import sre_parse
+    if not (isinstance(call, ast.Call) and ast.unparse(call.func) == "re.compile" and 1 <= len(call.args) <= 2 and not call.keywords):
+        raise Untranslatable("not a re.compile(...) call: " + ast.unparse(call)[:80])
+    pat = call.args[0]
+    if not (isinstance(pat, ast.Constant) and isinstance(pat.value, str)):
+        raise Untranslatable("regular expression pattern is not a constant string: " + ast.unparse(pat)[:80])
+    letters = set()
+    if len(call.args) == 2:
+        for n in ast.walk(call.args[1]):
+            if isinstance(n, ast.Attribute):
+                if not (isinstance(n.value, ast.Name) and n.value.id == "re" and n.attr in FLAG_NAMES):
+                    raise Untranslatable("regex flag " + ast.unparse(n))
+                letters.add(FLAG_NAMES[n.attr])
+            elif not isinstance(n, (ast.BinOp, ast.BitOr, ast.Name, ast.Load)):
+                raise Untranslatable("regex flags " + ast.unparse(call.args[1]))
+    flags = 0
+    for ch in letters:
+        flags |= getattr(re, ch)
+    with warnings.catch_warnings():
+        warnings.simplefilter("ignore")
+        tree = sre_parse.parse(pat.value, flags)
+
+    def norm(x):
+        if isinstance(x, sre_parse.SubPattern):
+            return [norm(i) for i in x.data]
+        if isinstance(x, tuple) and len(x) == 2 and str(x[0]) == "SUBPATTERN":
+            return ["GROUP", norm(x[1][3])]
+        if isinstance(x, (tuple, list)):
+            return [norm(i) for i in x]
+        return str(x)
+
+    return "".join(sorted(letters)) + " " + repr(norm(tree))
+
+
+def check_regex_shapes(top):
+    """integer_re, float_re, string_re as regular-expression TERMS must be the ones the model's scanners were
+    written (and proved) against"""
+    import json
+    want = json.load(open(os.path.join(os.path.dirname(os.path.abspath(__file__)), "lit_regex_shapes.json")))
+    got = {}
+    for name in want:
+        if name not in top:
+            raise Untranslatable(name + " is missing")
+        got[name] = regex_shape(top[name])
+        if got[name] != want[name]:
+            raise Untranslatable(f"{name} is no longer the regular expression the model was validated against:\n  now      {got[name][:400]}\n  expected {want[name][:400]}")
+    return got
+
+
 def translate(src_root):
     tree = ast.parse(open(os.path.join(src_root, "jinja2", "lexer.py")).read())
     top = {}
     for n in tree.body:
         if isinstance(n, ast.Assign) and len(n.targets) == 1 and isinstance(n.targets[0], ast.Name):
             top[n.targets[0].id] = n.value
+    if os.environ.get("LIT_REGEX_SHAPES") != "dump":
+        check_regex_shapes(top)
     for const, text in (("TOKEN_STRING", "string"), ("TOKEN_INTEGER", "integer"), ("TOKEN_FLOAT", "float")):
         if const not in top or ast.unparse(top[const]) != f"intern({text!r})":
             raise Untranslatable(f"{const} is not intern({text!r})")
@@ -200,6 +264,12 @@ def emit(src_root):
     d = translate(src_root)
     d["root"] = src_root
     return COQ % d
+
+
+def dump_shapes(src_root):
+    tree = ast.parse(open(os.path.join(src_root, "jinja2", "lexer.py")).read())
+    top = {n.targets[0].id: n.value for n in tree.body if isinstance(n, ast.Assign) and len(n.targets) == 1 and isinstance(n.targets[0], ast.Name)}
+    return {name: regex_shape(top[name]) for name in ("integer_re", "float_re", "string_re")}
 
 
 if __name__ == "__main__":
